@@ -1,5 +1,6 @@
 import PPProofs.Lemmas.ParseNoIdx
 import PPProofs.Lemmas.ParseAdv
+import PPProofs.Lemmas.ParseBound
 import PPProofs.Props.C14
 /-!
 # C06 — parsing is total: only ParseBaseException escapes, with sane diagnostics
@@ -33,6 +34,57 @@ theorem no_indexerror_escapes (g : Grammar) (s : List Char) (hw : WFIdx g) (f id
 theorem parse_match_forward (g : Grammar) (s : List Char) (f id loc : Nat) (a c : Bool) (e : Nat) (ts : List Tok)
     (h : parse g s f id loc a c = .ok e ts) : loc ≤ e :=
   parse_adv g s f id loc a c e ts h
+
+/-- **every location the parser reports lies inside the parsed string**: a `_parse` call begun inside the string
+    (`loc ≤ len + 1`) ends a match at `e ≤ len + 1` and raises its ParseBaseException with `loc ≤ len + 1` (the `+ 1`
+    is what StringEnd / LineEnd return when they match at the very end) — every grammar, input, fuel, call -/
+theorem parse_locations_inside (g : Grammar) (s : List Char) (f id loc : Nat) (a c : Bool) (hl : loc ≤ s.length + 1) :
+    (match parse g s f id loc a c with
+     | .ok e _ => loc ≤ e ∧ e ≤ s.length + 1
+     | .fail _ l => l ≤ s.length + 1
+     | _ => True) := by
+  have hb := parse_bnd g s f id loc a c hl
+  cases h : parse g s f id loc a c with
+  | ok e ts => rw [h] at hb; exact ⟨parse_adv g s f id loc a c e ts h, hb⟩
+  | fail k l => rw [h] at hb; exact hb
+  | idx => trivial
+  | hang => trivial
+
+/-- … and so does parse_string (also with parse_all): the exception it raises has `0 ≤ loc ≤ len + 1` -/
+theorem parseString_error_loc_inside (g : Grammar) (s dw : List Char) (f root : Nat) (pa : Bool) (k : Exc) (l : Nat)
+    (h : parseString (parse g s f) g root dw s pa = .fail k l) : l ≤ s.length + 1 := by
+  have hB := parse_bnd g s f
+  unfold parseString at h
+  have h0 := hB root 0 true true (by omega)
+  cases hp : parse g s f root 0 true true with
+  | ok e ts =>
+    rw [hp] at h h0
+    simp only at h
+    split at h
+    · cases hg : g[root]? with
+      | none => rw [hg] at h; simp at h
+      | some nd =>
+        rw [hg] at h
+        simp only at h
+        have h1 := preParse_bnd hB nd s e (by omega) h0
+        cases hq : preParse (parse g s f) nd s e with
+        | abort o => rw [hq] at h h1; simp only at h; subst h; exact h1
+        | «at» l1 =>
+          rw [hq] at h h1
+          simp only at h
+          have h2 : (stringEndCheck dw s l1).inB (s.length + 1) := by
+            unfold stringEndCheck
+            exact stringEndImpl_bnd _ _ _ (Nat.le_refl _)
+              (skipWhite_le _ _ _ _ (by omega) (skipWhite_le _ _ _ _ (by omega) h1))
+          cases hs : stringEndCheck dw s l1 with
+          | ok e' ts' => rw [hs] at h; simp at h
+          | fail k' l' => rw [hs] at h h2; simp at h; exact h.2 ▸ h2
+          | idx => rw [hs] at h; simp at h
+          | hang => rw [hs] at h; simp at h
+    · simp at h
+  | fail k' l' => rw [hp] at h h0; simp at h; exact h.2 ▸ h0
+  | idx => rw [hp] at h; simp at h
+  | hang => rw [hp] at h; simp at h
 
 theorem leaf_indexerror_only_at_end {p : P} (hp : NoIdx p) (g : Grammar) (nd : Node) (s : List Char) (loc : Nat)
     (acts : Bool) (h : parseImpl g p nd s loc acts = .idx) (hne : nd.kind ≠ .and []) : loc ≥ s.length := by
